@@ -48,10 +48,19 @@ def check(tier):
             "(up to 120 tuples) x thread counts; oracle: all counter values of a run pairwise distinct, projection = reference model, one tuple per derivation")
     rep.assume("interleavings inside one thread count are whatever the OS produces (repeated 5x in the thorough tier); the atomicity of the counter "
                "itself is a single fetch_add and is not separately model checked")
+    # schedule dimension: generated code under the vsched scheduler with the OpenMP shim (all chunk assignments and access
+    # interleavings up to the preemption bound on small driver programs)
+    from .. import gomp_cases
+    gomp_cases.run_gomp(rep, tier, dl, "C22")
     return rep.finish()
 
 
 def replay(obj):
+    if obj.get("kind") == "vsched":
+        from .. import vs
+        import os
+        exe = os.path.join(VBUILD, "gomp", obj["extra"]["gomp"], "harness")
+        return vs.replay_schedule(exe, obj["scenario"], obj["schedule"], obj["bound"], obj.get("dpoints", 1), obj.get("horizon", 20000), obj.get("conflicts", ()))
     def judge(rel, got, exp, o):
         n = o["tags"][1]
         cs = []
